@@ -8,9 +8,9 @@ TRUSTED = ["asyncio keeps a datagram endpoint alive after an exception in a prot
            "events are sent from one socket in paced bursts; a sentinel broadcast per port is the delivery barrier"]
 ASSUMPTIONS = ["order is compared per port (the property's claim); the relative order of different ports is not compared"]
 RULE = ("event sequences over {valid broadcast of each family, foreign bytes, truncated, bit-flipped, unknown model, invalid UTF-8 name, "
-        "out-of-range time field} on 1..4 ports, on a fresh bridge or one stopped and started again once or twice, with the user's callback raising on chosen invocations; every valid broadcast is "
+        "out-of-range time field} on 1..4 ports (random free ports, and the library's own default ports when they are free), on a fresh bridge or one stopped and started again once or twice, with the user's callback raising on chosen invocations; every valid broadcast is "
         "tagged with its port and sequence number in the device name; thorough: every sequence of length <= 3 over the 8-letter "
-        "alphabet on 2 ports; byte-identical datagrams repeated on the same and on other ports, sent one at a time; non-trivial = distinct sequences holding a valid broadcast after a bad datagram or a raising callback")
+        "alphabet on 2 ports; broadcasts sent while start() is still opening ports; byte-identical datagrams repeated on the same and on other ports, sent one at a time; non-trivial = distinct sequences holding a valid broadcast after a bad datagram or a raising callback")
 REQUIREMENT = ("per port, the callback log = the decoded devices of exactly the valid broadcasts sent to that port, in sending order "
                "(expected_bcast of Spec/Encoders.v for each), regardless of everything else and of raising callbacks")
 LETTERS = ["wh", "pp", "sh", "th", "foreign", "trunc", "flip", "unknown", "badname", "badtime"]
@@ -79,7 +79,8 @@ def run_sequences(out, stream, cases):
         res = []
         for c in cases:
             ev = [(p, bytes.fromhex(h)) for p, h in c["events"]]
-            log, nh, nw, complete = await world.feed_bridge(c["ports"], ev, set(c["raising"]), c05.show, c06.sentinel, restarts=c.get("restarts", 0))
+            log, nh, nw, complete = await world.feed_bridge(c["ports"], ev, set(c["raising"]), c05.show, c06.sentinel, restarts=c.get("restarts", 0),
+                                                            ports=world.WELL_KNOWN_PORTS if c.get("well_known") else None)
             v = per_port_view(c["ports"], [(port_of(s), s) for s in log])
             res.append(v + " ## handler=%d" % nh if complete else "barrier-lost " + v)
         return res
@@ -153,6 +154,38 @@ def mk(rnd, n_ports, letters, raising=None):
             "restarts": rnd.choice([0, 0, 0, 1, 2])}
 
 
+def well_known_cases(rnd):
+    """every family on each of the library's four default ports (20002, 10002, 20003, 10003), plus mixed sequences"""
+    seq = []; exp = {p: [] for p in range(4)}; k = 0; letters = []
+    for p in range(4):
+        for fam in FAMILY:
+            k += 1; d, e = make_event(rnd, fam, p, k); seq.append([p, d.hex()]); exp[p].append(e); letters.append(fam)
+    cs = [{"ports": 4, "letters": letters, "events": seq, "raising": [], "expected": {str(p): e for p, e in exp.items()}, "restarts": 0}]
+    cs += [mk(rnd, 4, [rnd.choice(LETTERS) for _ in range(rnd.randrange(4, 20))]) for _ in range(3)]
+    for c in cs: c["well_known"] = True
+    return cs
+
+
+def run_during_start(out, rnd, trials):
+    """a device keeps broadcasting while the bridge is still opening its four ports: whatever reaches a port that is already bound
+    is delivered like any other broadcast"""
+    async def go():
+        res = []
+        for _ in range(trials):
+            ds = []; ex = []
+            for k in range(40):
+                d, e = make_event(rnd, rnd.choice(list(FAMILY)), 0, k + 1); ds.append(d); ex.append(e)
+            log, nh, nw, complete = await world.feed_bridge(4, [], (), c05.show, c06.sentinel, during_start=ds)
+            early = list(world.feed_bridge.sent_early)
+            res.append((early, " ".join(log) if complete else "barrier-lost", " ".join(ex[k] for k in early)))
+        return res
+    res = asyncio.run(go())
+    cases = [{"sent_while_starting": len(e)} for e, _, _ in res]
+    lib.differential(out, "broadcasts-arriving-while-the-bridge-starts", cases, [i for _, i, _ in res], None, [x for _, _, x in res],
+                     lambda c: "%d broadcasts sent to the first port while start() was still opening the others" % c["sent_while_starting"],
+                     nontrivial=lambda c: c["sent_while_starting"] > 0, sample=lambda c: c, classify=lambda c, i: "during-start/%d" % min(c["sent_while_starting"], 3))
+
+
 def run(tier, rnd, out):
     corpus = lib.load_corpus("C07")
     if corpus: run_sequences(out, "corpus", corpus)
@@ -165,6 +198,9 @@ def run(tier, rnd, out):
         n = rnd.choice([1, 2, 3, 8, 30]) if tier == "quick" else rnd.choice([1, 5, 30, 100])
         cs.append(mk(rnd, rnd.randrange(1, 5), [rnd.choice(LETTERS) for _ in range(rnd.randrange(1, n + 1))]))
     run_sequences(out, "sequences-over-udp", cs)
+    if world.well_known_ports(): run_sequences(out, "on-the-library's-default-ports", well_known_cases(rnd))
+    else: out.notes.append("the library's default ports are not all free on this host: that stream was skipped")
+    run_during_start(out, rnd, 6 if tier == "quick" else 60)
     run_repeats(out, "repeated-datagrams-one-at-a-time", [mk_repeats(rnd, rnd.randrange(1, 4), rnd.randrange(2, 12)) for _ in range(60 if tier == "quick" else 600)])
     out.exhaustive = tier == "thorough"
 
